@@ -66,6 +66,9 @@ func TestC10(t *testing.T) {
 	defer func() { run.Count("appended_documents_of_1_to_3_MiB", bigDocs.Load()) }()
 	defer func() { run.Count("streams_ranged_a_second_time_after_an_early_stop", rerangedStreams.Load()) }()
 	defer func() { run.Count("offset_saves_by_the_consumer_of_an_open_stream", consumerWrites.Load()) }()
+	defer func() {
+		run.Count("appends_preceded_by_a_refused_payloadless_event_of_the_same_type", refusedFirst.Load())
+	}()
 	scratch := os.Getenv("VERIF_SCRATCH")
 	if scratch == "" {
 		scratch = t.TempDir()
@@ -376,6 +379,16 @@ func doAppend(ctx context.Context, rng *rand.Rand, s *sut, viol violFn, fl *flag
 	if rng.IntN(2) == 0 {
 		actx, acancel = context.WithCancel(ctx)
 	}
+	if s.fam == "sqlite" && rng.IntN(6) == 0 {
+		// an invalid event (no payload) of this very type is refused first - by this handle or by the
+		// other one; that leaves nothing behind, in the log or anywhere else
+		if off, err := w.Append(actx, &ebu.Event{Type: e.Type, Data: nil, Timestamp: e.Time}); err == nil {
+			viol(s, "append-accepted-event-without-payload", "", fmt.Sprintf("Append of an event without a payload (type %q) returned %q", clip(e.Type), off))
+			acancel()
+			return
+		}
+		refusedFirst.Add(1)
+	}
 	off, err := w.Append(actx, &ebu.Event{Type: e.Type, Data: e.Data, Timestamp: e.Time})
 	acancel()
 	s.trace = append(s.trace, fmt.Sprintf("Append(type=%q data=%.40q ts=%s) -> %q err=%v", clip(e.Type), string(e.Data), e.Time.Format("2006-01-02T15:04:05.999999999Z07:00:00 MST"), off, err))
@@ -407,7 +420,7 @@ func doAppend(ctx context.Context, rng *rand.Rand, s *sut, viol violFn, fl *flag
 // lostAckAppend (durable-streams): the server commits the append, the reply is lost (503). Whatever
 // the client makes of that, the event is in the log exactly once: every later read is compared with
 // a reference log that contains it once.
-var lostAcks, bigDocs, rerangedStreams, consumerWrites atomic.Int64
+var lostAcks, bigDocs, rerangedStreams, consumerWrites, refusedFirst atomic.Int64
 
 func lostAckAppend(ctx context.Context, rng *rand.Rand, s *sut, viol violFn) {
 	e := reflog.Ev{Type: jgen.TypeString(rng), Data: jgen.Doc(rng, true), Time: jgen.Timestamp(rng)}
